@@ -1,5 +1,7 @@
 (* C04 (stretch): invariants of the LazyMap protocol model (skipmap bottom lane WITH values), for ALL programs
    and ALL schedules, run from the initial state (header only).
+   Operations: Store / Load / LoadAndDelete / LoadOrStore / LoadOrStoreLazy / Delete (the last three added later:
+   their program counters only add cases to the proofs; linearizability is in Lzm*.v).
 
    For the repaired and the pre-repair code (any [rep]):
      lazymap_inv            order invariant, index facts of every program counter, lock bookkeeping
@@ -204,6 +206,12 @@ Definition pc_ok (h : heap) (p : pc) : Prop :=
   | RCheck k pred v | RLockV k pred v | RMark k pred v | RLockP k pred v | RValid k pred v
   | RUnlink k pred v | RUnlockV k pred v | RUnlockP k pred v _ => lt_key h pred k /\ victim_ok h k v
   | RGiveUp v | RRead v | LRead v => valid h v
+  | OFind k _ _ _ pred => lt_key h pred k
+  | OLock k _ _ _ pred succ | OValid k _ _ _ pred succ | OCall k _ _ _ pred succ | OLink k _ _ _ pred succ =>
+      lt_key h pred k /\ succ_ok h k succ
+  | OFull k _ _ _ pred nn => valid h pred /\ victim_ok h k nn
+  | OUnlock _ _ _ _ pred _ => valid h pred
+  | OChkM k _ _ _ c | OWaitL k _ _ _ c | ORead k _ _ _ c => victim_ok h k c
   end.
 
 Lemma valid_ext h h' i : ext h h' -> valid h i -> valid h' i.
@@ -339,13 +347,51 @@ Proof.
   - (* LFlags *) match goal with |- context [if ?b then _ else _] => destruct b end; apply SAME; simpl in *;
       unfold victim_ok in *; tauto.
   - (* LRead *) apply SAME. exact I.
+  - (* OFind *) simpl in P. destruct P as [V K].
+    destruct (next (get h pred)) as [c|] eqn:En; cbn [fst snd].
+    + destruct (O pred c V En) as (A & B & C).
+      destruct (key (get h c) <? k) eqn:E1; cbn [fst snd].
+      * apply SAME. simpl. split; [exact B|]. intros _. now apply Z.ltb_lt.
+      * destruct (key (get h c) =? k) eqn:E2; cbn [fst snd].
+        -- apply Z.eqb_eq in E2. apply SAME; simpl; repeat split; assumption.
+        -- apply SAME. simpl. split; [split; assumption|]. split; [exact A|split; [exact B|]].
+           apply Z.ltb_ge in E1. apply Z.eqb_neq in E2. lia.
+    + apply SAME. simpl. split; [split; assumption|exact I].
+  - (* OChkM *) destruct (marked (get h c)); apply SAME; simpl; auto. now apply lt_key_0.
+  - (* OWaitL *) destruct (linked (get h c)); apply SAME; exact P.
+  - (* ORead *) apply SAME. exact I.
+  - (* OLock *) destruct (acquire h t pred) as [h'|] eqn:Ea; cbn [fst snd]; [|now apply SAME].
+    apply acquire_some in Ea. destruct Ea as [-> _]. apply FLAG; auto with lzm.
+  - (* OValid *)
+    match goal with |- context [if ?b then _ else _] => destruct b end; [destruct lz|]; apply SAME; simpl in *;
+      unfold lt_key, victim_ok in *; tauto.
+  - (* OCall *) apply SAME. exact P.
+  - (* OLink *) simpl in P. destruct P as [[V K] S].
+    set (nn := {| key := k; value := v; next := succ; marked := false; linked := false; lock := None |}).
+    assert (E1 : ext h (h ++ [nn])) by apply ext_app.
+    assert (O1 : ord (h ++ [nn])).
+    { apply ord_app; [exact O|]. simpl. destruct succ as [m|]; [|exact I]. exact S. }
+    assert (V1 : valid (h ++ [nn]) pred) by (eapply valid_ext; eauto).
+    assert (Vn : valid (h ++ [nn]) (length h)) by (unfold valid; rewrite app_length; simpl; lia).
+    split; [|split].
+    + eapply ext_trans; [exact E1|]. apply ext_setn. auto with lzm.
+    + apply ord_set_next; [exact O1|exact V1|]. simpl. split; [lia|split; [exact Vn|]].
+      intros N. rewrite get_app_new, get_app_old by exact V. simpl. now apply K.
+    + simpl. unfold victim_ok. split; [unfold valid; rewrite setn_length; exact V1|].
+      split; [lia|split; [unfold valid; rewrite setn_length; exact Vn|]].
+      rewrite (fld_setn key) by reflexivity. now rewrite get_app_new.
+  - (* OFull *) apply FLAG; auto with lzm. simpl in *. tauto.
+  - (* OUnlock *)
+    destruct ok; (apply FLAG; [auto with lzm|]); simpl; auto. now apply lt_key_0.
 Qed.
 
 
 (* ---------- locks: what a program counter holds ---------- *)
 Definition held (p : pc) : list nat :=
   match p with
-  | SValid _ _ pred _ | SLink _ _ pred _ | SFull _ _ pred _ | SUnlock _ _ pred _ => [pred]
+  | SValid _ _ pred _ | SLink _ _ pred _ | SFull _ _ pred _ | SUnlock _ _ pred _
+  | OValid _ _ _ _ pred _ | OCall _ _ _ _ pred _ | OLink _ _ _ _ pred _ | OFull _ _ _ _ pred _
+  | OUnlock _ _ _ _ pred _ => [pred]
   | SChkM _ _ c | SWaitL _ _ c | SWrite _ _ c | SUnlockN _ _ c _ => [c]
   | RFind _ _ (Some v) | RMark _ _ v | RLockP _ _ v | RGiveUp v => [v]
   | RValid _ pred v | RUnlink _ pred v | RUnlockV _ pred v => [v; pred]
@@ -434,14 +480,15 @@ Proof.
   all: cbn [pc_ok] in P; unfold lt_key, victim_ok in P.
   all: try (eapply LS_acq; [exact W|tauto|assumption|intros; cbn [held In]; tauto]).
   all: try (eapply LS_rel; [exact W|tauto|cbn [held In]; tauto|intros; cbn [held In]; tauto|cbn [held In]; intuition congruence]).
-  eapply LS_same; [exact W|intros i; apply lock_app_setn; reflexivity|intros; cbn [held]; tauto].
+  all: eapply LS_same; [exact W|intros i; apply lock_app_setn; reflexivity|intros; cbn [held]; tauto].
 Qed.
 
 (* ---------- which action can change value / marked / linked of an existing node ---------- *)
 Definition writes (h h' : heap) (p : pc) (i : nat) : Prop :=
   (value (get h' i) <> value (get h i) -> (exists k v, p = SWrite k v i) \/ (exists k v, p = SWrite0 k v i)) /\
   (marked (get h' i) <> marked (get h i) -> exists k pred, p = RMark k pred i) /\
-  (linked (get h' i) <> linked (get h i) -> exists k v pred, p = SFull k v pred i).
+  (linked (get h' i) <> linked (get h i) ->
+     (exists k v pred, p = SFull k v pred i) \/ (exists k v lz n pred, p = OFull k v lz n pred i)).
 
 Lemma writes_none h h' p i :
   value (get h' i) = value (get h i) -> marked (get h' i) = marked (get h i) -> linked (get h' i) = linked (get h i) ->
@@ -470,7 +517,7 @@ Proof.
   - apply writes_none; rewrite ?(fld_setn value), ?(fld_setn marked), ?(fld_setn linked) by reflexivity;
       now rewrite get_app_old.
   - unfold writes. rewrite (fld_setn value), (fld_setn marked) by reflexivity.
-    split; [congruence|split; [congruence|]]. intros N. destruct (Nat.eq_dec i nn) as [->|D]; [eauto|].
+    split; [congruence|split; [congruence|]]. intros N. destruct (Nat.eq_dec i nn) as [->|D]; [left; eauto|].
     rewrite get_setn_other in N by exact D. congruence.
   - unfold writes. rewrite (fld_setn linked), (fld_setn marked) by reflexivity.
     split; [|split; congruence]. intros N. destruct (Nat.eq_dec i c) as [->|D]; [eauto|].
@@ -480,6 +527,11 @@ Proof.
     rewrite get_setn_other in N by exact D. congruence.
   - unfold writes. rewrite (fld_setn linked), (fld_setn value) by reflexivity.
     split; [congruence|split; [|congruence]]. intros N. destruct (Nat.eq_dec i v) as [->|D]; [eauto|].
+    rewrite get_setn_other in N by exact D. congruence.
+  - apply writes_none; rewrite ?(fld_setn value), ?(fld_setn marked), ?(fld_setn linked) by reflexivity;
+      now rewrite get_app_old.
+  - unfold writes. rewrite (fld_setn value), (fld_setn marked) by reflexivity.
+    split; [congruence|split; [congruence|]]. intros N. destruct (Nat.eq_dec i nn) as [->|D]; [right; eauto 8|].
     rewrite get_setn_other in N by exact D. congruence.
 Qed.
 
@@ -621,14 +673,16 @@ Definition pc_flags (h : heap) (p : pc) : Prop :=
   | SChkM0 _ _ _ | SWrite0 _ _ _ => False                 (* never reached by the repaired code *)
   | SWaitL _ _ c => marked (get h c) = false
   | SWrite _ _ c => marked (get h c) = false /\ linked (get h c) = true
-  | SFull _ v _ nn => value (get h nn) = v /\ marked (get h nn) = false /\ linked (get h nn) = false
+  | SFull _ v _ nn | OFull _ v _ _ _ nn =>
+      value (get h nn) = v /\ marked (get h nn) = false /\ linked (get h nn) = false
   | RLockV _ _ v | RMark _ _ v => linked (get h v) = true
   | RFind _ _ (Some v) | RLockP _ _ v | RValid _ _ v | RUnlink _ _ v | RUnlockV _ _ v
   | RUnlockP _ _ v _ | RRead v => marked (get h v) = true
   | _ => True
   end.
 
-Definition sf_of (p : pc) : option nat := match p with SFull _ _ _ nn => Some nn | _ => None end.
+Definition sf_of (p : pc) : option nat :=
+  match p with SFull _ _ _ nn | OFull _ _ _ _ _ nn => Some nn | _ => None end.
 
 Lemma action_flags h t p : pc_ok h p -> pc_flags h p ->
   pc_flags (fst (action true h t p)) (snd (action true h t p)).
@@ -653,6 +707,7 @@ Proof.
   - rewrite get_app_new. cbn. auto.
   - match goal with H : _ && _ = true |- _ => apply andb_true_iff in H; tauto end.
   - rewrite get_setn_same; [reflexivity|]. cbn [pc_ok] in P. unfold victim_ok in P. tauto.
+  - rewrite get_app_new. cbn. auto.
 Qed.
 
 Lemma start_flags h o : pc_flags h (start o).
@@ -681,7 +736,7 @@ Proof.
 Qed.
 
 Lemma sf_valid h p nn : pc_ok h p -> sf_of p = Some nn -> valid h nn.
-Proof. destruct p; try discriminate. cbn. unfold victim_ok. intros P E. inversion E; subst. tauto. Qed.
+Proof. destruct p; try discriminate; cbn; unfold victim_ok; intros P E; inversion E; subst; tauto. Qed.
 
 (* the flag facts of thread u survive a transition of another thread t *)
 Lemma flags_stable h h' p q t u : u <> t -> ext h h' -> pc_ok h q -> own h t p -> own h u q ->
@@ -694,21 +749,26 @@ Proof.
     assert (Vc : valid h c) by (eapply lock_valid; apply Wu; exact Hc).
     destruct (WR c Vc) as (_ & WM & _). destruct WM as (k0 & p0 & ->); [congruence|].
     apply Wu in Hc. assert (Ht : lock (get h c) = Some t) by (apply Wt; cbn; auto). congruence. }
-  destruct q; try destruct mk; cbn [pc_flags] in *; auto.
-  - (* SFull *) destruct Fq as (Fv & Fm & Fl). destruct Pq as (_ & _ & Vn & _).
+  assert (FULL : forall x nn, valid h nn -> sf_of q = Some nn ->
+            value (get h nn) = x /\ marked (get h nn) = false /\ linked (get h nn) = false ->
+            value (get h' nn) = x /\ marked (get h' nn) = false /\ linked (get h' nn) = false).
+  { intros x nn Vn Sq (Fv & Fm & Fl).
     destruct (WR nn Vn) as (WV & WM & WL).
     assert (El : linked (get h' nn) = false).
     { destruct (linked (get h' nn)) eqn:E; [exfalso|reflexivity].
-      destruct WL as (k0 & v0 & p0 & ->); [congruence|]. now apply (SF nn). }
+      destruct WL as [(k0 & v0 & p0 & ->)|(k0 & v0 & lz0 & n0 & p0 & ->)]; [congruence| |]; now apply (SF nn). }
     assert (Em : marked (get h' nn) = false).
     { destruct (marked (get h' nn)) eqn:E; [exfalso|reflexivity].
       destruct WM as (k0 & p0 & ->); [congruence|]. cbn [pc_flags] in Fp. congruence. }
     split; [|split; assumption].
     destruct (Z.eq_dec (value (get h' nn)) (value (get h nn))) as [E|E]; [congruence|exfalso].
     destruct (WV E) as [(k0 & v0 & ->)|(k0 & v0 & ->)]; cbn [pc_flags] in Fp; [|exact Fp].
-    destruct Fp as [_ Fp]. congruence.
+    destruct Fp as [_ Fp]. congruence. }
+  destruct q; try destruct mk; cbn [pc_flags] in *; auto.
+  - (* SFull *) destruct Pq as (_ & _ & Vn & _). now apply FULL.
   - (* SWaitL *) apply UNM; cbn; auto.
   - (* SWrite *) split; [apply UNM; cbn; auto; tauto|apply Ml; tauto].
+  - (* OFull *) destruct Pq as (_ & _ & Vn & _). now apply FULL.
 Qed.
 
 Record InvR (s : state) : Prop := {
